@@ -53,7 +53,59 @@ def call(req):
         o = object.__new__(MutualInfoClimateNetwork)
         o.silence_level = 3
         o.data = Data
+        if S:       # non-default number of bins (the worker behind the public method)
+            return o._cython_calculate_mutual_information(A[0], n_bins=S[0])
         return o.calculate_similarity_measure(A[0])
+    if fn == "cfb_hist":
+        # history on one object: the adjacency is reassigned (possibly with another
+        # number of nodes) after construction; optionally the resistances are
+        # refreshed afterwards; then one current-flow method is called
+        from pyunicorn.core.resistive_network import ResNetwork
+        net = ResNetwork(A[0], silence_level=3)
+        for i in req.get("warm", []):
+            net.vertex_current_flow_betweenness(i)
+        net.adjacency = A[1]
+        if req.get("refresh"):
+            net.update_resistances(A[2])
+        if S[0] == "e":
+            return net.edge_current_flow_betweenness()
+        return net.vertex_current_flow_betweenness(S[1])
+    if fn == "surr_hist":
+        # histories on one Surrogates object: the significance tests hand arrays held
+        # by the library (normalised original data, generated surrogates) to the
+        # raw-pointer test functions
+        from pyunicorn.timeseries.surrogates import Surrogates
+        s = Surrogates(A[0], silence_level=3)
+        c = [0, 0]
+        sf = {"white": Surrogates.white_noise_surrogates,
+              "corr": Surrogates.correlated_noise_surrogates,
+              "aaft": Surrogates.AAFT_surrogates,
+              "raaft": lambda x: Surrogates.refined_AAFT_surrogates(x, 2)}
+        tf = {"pearson": Surrogates.test_pearson_correlation,
+              "mi": Surrogates.test_mutual_information}
+        for step in req["steps"]:
+            if step[0] == "sig":
+                _try(c, s.test_threshold_significance, sf[step[1]], tf[step[2]],
+                     realizations=2, n_bins=step[3])
+            elif step[0] == "dist":
+                _try(c, s.original_distribution, tf[step[2]], n_bins=step[3])
+            elif step[0] == "direct":
+                _try(c, tf[step[2]], s.original_data, sf[step[1]](s))
+            elif step[0] == "self":
+                _try(c, tf[step[2]], s.original_data, s.original_data)
+            elif step[0] == "twins":
+                _try(c, tf[step[2]], s.original_data, s.twin_surrogates(1, 1, 0.5))
+        return ("cnt", c[0], c[1])
+    if fn == "rp_hist":
+        from pyunicorn.timeseries import RecurrencePlot
+        rp = RecurrencePlot(A[0], metric=req.get("metric", "supremum"),
+                            adaptive_neighborhood_size=S[0], silence_level=3)
+        c = [0, 0]
+        for a, order in req["steps"]:
+            _try(c, rp.set_adaptive_neighborhood_size, a,
+                 None if order is None else np.array(order))
+            _try(c, rp.recurrence_rate)
+        return ("cnt", c[0], c[1])
     if fn in ("vcfb", "ecfb"):
         from pyunicorn.core.resistive_network import ResNetwork
         net = ResNetwork(A[0], silence_level=3)
